@@ -126,7 +126,7 @@ func C07(r *vlib.Run) {
 		env := append([]string{}, ru.env...)
 		if cfg.plugin {
 			args = append(args, "-p", "rec="+vlib.Bin("recplugin")+":alpha=1,beta,gamma=x=y")
-			env = append(env, "REC_DIR="+filepath.Join(ru.dir, "rec"), `REC_SCRIPT={"mode":"ok","files":[{"name":"`+ru.outName+`/from_plugin.txt","content":"hello"}]}`)
+			env = append(env, "REC_DIR="+filepath.Join(ru.dir, "rec"), c07PluginScript(ru.outName))
 		}
 		args = append(args, "idl/main.thrift")
 		n := 1
@@ -350,4 +350,13 @@ func c07Around(b []byte, i int) string {
 		hi = len(b)
 	}
 	return string(b[lo:hi])
+}
+
+// c07PluginScript: the recording plugin answers with one file and three patches for it; the text of each patch
+// holds the marker of the next point (a cycle), so an assembly that depends on the order in which points are
+// visited shows up as a different file from run to run.
+func c07PluginScript(outName string) string {
+	mk := func(p string) string { return "@@thriftgo_insertion_point(" + p + ")" }
+	return `REC_SCRIPT={"mode":"ok","files":[{"name":"` + outName + `/from_plugin.txt","content":"hello A:` + mk("pa") + ` B:` + mk("pb") + ` C:` + mk("pc") + ` D:` + mk("pd") + `"},` +
+		`{"insertion_point":"pa","content":"<a ` + mk("pb") + `>"},{"insertion_point":"pb","content":"<b ` + mk("pc") + `>"},{"insertion_point":"pc","content":"<c ` + mk("pd") + `>"},{"insertion_point":"pd","content":"<d ` + mk("pa") + `>"}]}`
 }
